@@ -20,6 +20,9 @@ from pyvc.sstr import SStr, S, SBool, SInt, Var, simp, zb, OutsideSubset
 from pyvc import interp as V
 from pyvc.interp import PDict, PObj, Raised, Lazy
 from . import common as C
+def W_REPO():
+    from pyvc import world
+    return world.REPO
 
 PROPERTY = 'C13'
 FUNCTIONS = {'spil/util/caching.py': ['lru_cache', 'lru_cache.wrapper', 'lru_kw_cache', 'lru_kw_cache.wrapper', 'hit_cache', 'hit_cache.wrapper'],
@@ -54,7 +57,47 @@ def cases(tier):
         for b in names[i:]:
             if len(spec[a]) == len(spec[b]): cs.append(('order', a, b))
     cs.append(('scan',))
+    cs += client_cases()
     return cs
+
+# ------------------------------------------------------------------ clients: the cached constructor chain of Sid()
+# The decorator proofs above take "equal keys => same call" for granted.  For the real cached functions the keys are strings AND Sid objects, and
+# Sid('T:x') == 'x' holds for every type T (StringSid.__eq__): a table keyed by == alone would conflate Sid(Sid('T2:x')) with Sid('x').  CPython's
+# key rule is "equal hash and ==" (Interp.key_eq), so what keeps them apart is StringSid.__hash__ hashing the uri.  Client obligation: in every
+# two-call history over {Sid(x), Sid(Sid('T2:x'))} (x a string whose natural type T1 differs from T2) each answer is the fresh answer.
+def client_cases():
+    import re
+    spec = C.spec_templates(); names = list(spec); out = []
+    for j, T2 in enumerate(names):
+        for T1 in names[:j]:
+            if len(spec[T1]) != len(spec[T2]): continue
+            vals = []
+            for (k1, p1), (k2, p2) in zip(spec[T1], spec[T2]):
+                c = next((c for c in C.CANDIDATES + ['*'] if re.fullmatch(p1, c) and re.fullmatch(p2, c)), None)
+                if c is None: break
+                vals.append(c)
+            else:
+                s_ = '/'.join(vals)
+                if C.py_nat_type(s_)[0] == T1 and C.py_nat_type(s_, forced=T2)[0] == T2:
+                    for order in ('string-first', 'sid-first'): out.append(('client', T1, T2, s_, order))
+    return out
+def run_client(it, st, T1, T2, s_, order):
+    Sid = C.sid_class(it); name = 'C13:Sid()-constructor-chain'
+    st.inputs['string'] = s_; st.inputs['natural_type'] = T1; st.inputs['forced_type'] = T2; st.inputs['order'] = order
+    try:
+        x2 = it.call(Sid, [T2 + ':' + s_], {})          # the Sid object of the forced type (built from its uri: a different key)
+        if order == 'string-first': a = it.call(Sid, [s_], {}); b = it.call(Sid, [x2], {})
+        else: b = it.call(Sid, [x2], {}); a = it.call(Sid, [s_], {})
+        # the keyword forms go through the same cached functions
+        a2 = it.call(Sid, [], {'sid': s_}); b2 = it.call(Sid, [], {'sid': x2})
+    except Raised as e:
+        st.oblige(f'{name}:raises-nothing', False, ('C13',), info={'exception': V.exc_name(e)}); st.observed = {}; return 'ok'
+    st.observed = {}
+    def tv(o): return (C.view(o)[0], C.view(o)[2]) if isinstance(o, V.PObj) else None
+    ok = tv(a) == (T1, s_) and tv(b) == (T2, s_) and tv(a2) == (T1, s_) and tv(b2) == (T2, s_)
+    st.oblige(f'{name}:a-string-and-a-sid-object-that-compare-equal-do-not-share-a-cache-entry', ok, ('C13', 'C14'),
+              info={'Sid(string)': repr(tv(a)), 'Sid(sid-object)': repr(tv(b)), 'keyword forms': repr((tv(a2), tv(b2))), 'fresh answers': repr(((T1, s_), (T2, s_)))})
+    return 'ok'
 
 class Fun:
     """uninterpreted deterministic function of (args, kwargs): memo table, fresh result per distinct argument tuple"""
@@ -71,6 +114,7 @@ class Fun:
         it.raise_('AttributeError', name)
 
 def run(it, st, case):
+    if case[0] == 'client': return run_client(it, st, *case[1:])
     if case[0] == 'calls': return run_calls(it, st, case)
     if case[0] == 'order': return run_order(it, st, case[1], case[2])
     if case[0] == 'scan': return run_scan(it, st)
@@ -190,6 +234,19 @@ def crosscheck(case, conc, exp):
     if got != exp: return {'status': 'diverged', 'input': conc, 'cpython': got, 'engine': exp}
     return {'status': 'agree'}
 def replay(case, ob, inputs):
+    if case is not None and case[0] == 'client':
+        import subprocess, sys, json
+        _, T1, T2, s_, order = case
+        prog = ("import io,contextlib,json\n"
+                "with contextlib.redirect_stdout(io.StringIO()):\n    import spil\n    from spil import Sid\n"
+                f"x2 = Sid({T2 + ':' + s_!r})\n"
+                + (f"a = Sid({s_!r}); b = Sid(x2)\n" if order == 'string-first' else f"b = Sid(x2); a = Sid({s_!r})\n")
+                + "print(json.dumps([a.type, b.type]))\n")
+        p = subprocess.run([sys.executable, '-c', prog], capture_output=True, text=True, cwd=W_REPO())
+        out = p.stdout.strip().split('\n')[-1] if p.stdout.strip() else p.stderr[-300:]
+        ok = out == json.dumps([T1, T2])
+        return {'confirmed': not ok, 'call': f"history ({order}): Sid({s_!r}) and Sid(Sid({T2 + ':' + s_!r})) in one fresh process", 'observed': out[:300], 'expected': json.dumps([T1, T2]),
+                'reproducer': prog}
     if case is None or case[0] == 'scan':
         return {'confirmed': False, 'call': 'scan of cache-decorated functions and of the finder / getter classes', 'observed': repr(ob.get('info')), 'expected': 'only functions that do not read changing data are cached'}
     if case[0] == 'order':
@@ -202,7 +259,7 @@ def replay(case, ob, inputs):
         outs = set()
         for seed in ('0', '1', '2', '3', '4', '5'):
             import os
-            p = subprocess.run([sys.executable, '-c', prog], capture_output=True, text=True, env={**os.environ, 'PYTHONHASHSEED': seed}, cwd='/repo')
+            p = subprocess.run([sys.executable, '-c', prog], capture_output=True, text=True, env={**os.environ, 'PYTHONHASHSEED': seed}, cwd=W_REPO())
             outs.add(p.stdout.strip().split('\n')[-1])
         diff = len(outs) > 1 or any(json.loads(o)[0] != json.loads(o)[1] for o in outs if o.startswith('['))
         return {'confirmed': diff, 'call': 'apply_unfolders with the two Sids under 6 hash seeds and both insertion orders', 'observed': sorted(outs)[:4], 'expected': 'one order'}
